@@ -294,10 +294,18 @@ fn hello_layouts<const FROM: usize>() {
     let mut accepted_some = false;
     let mut i = FROM;
     while i < FROM + 3 {
-        accepted_some |= hello_layout(LAYOUTS[i], any_sid_text());
+        // the six session-id texts are walked concretely as well: since the reader trims the
+        // text (fix 1f15879) a *symbolic* text makes `str::trim` iterate over an `ite` of six
+        // strings, which alone costs more than 20 minutes per layout group
+        let mut text = 3u8;
+        while text <= 8 {
+            accepted_some |= hello_layout(LAYOUTS[i], text);
+            text += 1;
+        }
         i += 1;
     }
     kani::cover!(accepted_some || FROM != 3, "a hello of this group is accepted");
+    kani::cover!(!accepted_some || FROM == 3, "the group behaves as expected");
 }
 
 macro_rules! hello_sequence_harnesses {
